@@ -58,7 +58,7 @@ def _self_attrs_written(fn):
 def _check_fit_shape(fn):
     """canonical text of a check_fit body (docstring removed)"""
     body = [s for s in fn.body if not (isinstance(s, ast.Expr) and isinstance(s.value, ast.Constant))]
-    return ' ;; '.join(ast.unparse(s).replace('\n', ' ') for s in body)
+    return ' ;; '.join(' '.join(ast.unparse(s).split()) for s in body)
 
 
 def _decorator_shape(fn):
@@ -395,10 +395,715 @@ def repro_history(spec, evs, step):
 
 
 # =====================================================================================================
+# (3) witness search: the property on the real classes
+# =====================================================================================================
+PRE = ('import warnings, numpy as np, pandas as pd\nwarnings.simplefilter("ignore")\n'
+       'from vf.props import C19 as P\n')
+
+
+def _err(ex):
+    return type(ex).__name__
+
+
+def _try(f):
+    with warnings.catch_warnings():
+        warnings.simplefilter('ignore')
+        try:
+            return ('ok', f())
+        except Exception as ex:
+            return ('err', _err(ex))
+
+
+def _val(v):
+    import pandas as pd
+    if isinstance(v, pd.DataFrame):
+        return v.to_numpy(dtype=float)
+    if isinstance(v, dict):
+        return L.jsonable(v)
+    return np.asarray(v, dtype=float) if v is not None else None
+
+
+def _same_val(a, b):
+    if a[0] != b[0]:
+        return False
+    if a[0] == 'err':
+        return a[1] == b[1]
+    x, y = a[1], b[1]
+    if isinstance(x, (dict, list)) or isinstance(y, (dict, list)):
+        return L.same(L.jsonable(x), L.jsonable(y), rel=1e-9)
+    if x is None or y is None:
+        return x is None and y is None
+    x, y = np.asarray(x, dtype=float), np.asarray(y, dtype=float)
+    return x.shape == y.shape and bool(np.allclose(x, y, rtol=1e-9, atol=1e-12, equal_nan=True))
+
+
+def _replay(fn_call, key):
+    return (PRE + f'bad = [b for b in {fn_call} if b[0] == {key!r}]\n'
+            'print(bad[0][1] if bad else "no violation")\nraise SystemExit(1 if bad else 0)\n')
+
+
+def target_classes():
+    """name -> dict(make=factory(**overrides), kind, X=target data, A={category: earlier data})"""
+    import pandas as pd
+    from copulas import univariate as U
+    from copulas.bivariate import Clayton, Frank, Gumbel
+    from copulas.multivariate import GaussianMultivariate, VineCopula
+    r = np.random.RandomState(190)
+    X = r.gamma(2.0, 1.5, 40) + 0.5
+    Xc = np.full(5, 4.25)
+    uniA = {'constant': np.full(7, 2.5), 'scaled': 10 * X, 'bigger': r.gamma(2.0, 1.5, 90) + 0.3, 'smaller': X[:6].copy(),
+            'nan': np.array([1.0, np.nan, 3.0, 2.0]), 'empty': np.array([], dtype=float)}
+    out = {}
+    fams = [U.GaussianUnivariate, U.UniformUnivariate, U.BetaUnivariate, U.GammaUnivariate, U.StudentTUnivariate, U.LogLaplace,
+            U.TruncatedGaussian, U.GaussianKDE]
+    for cls in fams:
+        out[cls.__name__] = dict(make=cls, kind='uni', X=X, Xc=Xc, A=uniA)
+    out['TruncatedGaussian(min,max)'] = dict(make=lambda **k: U.TruncatedGaussian(-5.0, 200.0, **k), kind='uni', X=X, Xc=Xc, A=uniA)
+    out['GaussianKDE(sample_size=12)'] = dict(make=lambda **k: U.GaussianKDE(sample_size=12, **k), kind='uni', X=X, Xc=Xc, A=uniA)
+    out['GaussianKDE(bw_method=0.4)'] = dict(make=lambda **k: U.GaussianKDE(bw_method=0.4, **k), kind='uni', X=X, Xc=Xc, A=uniA)
+    out['Univariate'] = dict(make=lambda **k: U.Univariate(candidates=[U.GaussianUnivariate, U.UniformUnivariate, U.TruncatedGaussian], **k),
+                             kind='uni', X=X, Xc=Xc, A=uniA)
+    out['Univariate(parametric)'] = dict(make=lambda **k: U.Univariate(parametric=U.ParametricType.PARAMETRIC, **k), kind='uni', X=X,
+                                         Xc=Xc, A={k: uniA[k] for k in ('constant', 'scaled', 'nan')})
+    out['Univariate(selection_sample_size=5)'] = dict(
+        make=lambda **k: U.Univariate(candidates=[U.GaussianUnivariate, U.UniformUnivariate], selection_sample_size=5, **k),
+        kind='uni', X=X, Xc=Xc, A={k: uniA[k] for k in ('constant', 'bigger')})
+
+    def dep(n, a, flip=False):
+        u = r.uniform(size=(n, 2))
+        u[:, 1] = a * u[:, 0] + (1 - a) * u[:, 1]
+        if flip:
+            u[:, 1] = 1 - u[:, 1]
+        return u
+    B = dep(60, 0.6)
+    bivA = {'constant-column': np.column_stack([np.full(6, .5), np.linspace(.1, .9, 6)]), 'scaled': dep(60, 0.2), 'bigger': dep(150, 0.7),
+            'smaller': dep(8, 0.5), 'negative-dependence': dep(50, 0.6, True), 'outside-unit': np.array([[.1, .2], [1.5, .4], [.3, .9]]),
+            'empty': np.zeros((0, 2)), 'nan': np.array([[.1, .2], [np.nan, .4], [.3, .9]])}
+    for cls in (Clayton, Frank, Gumbel):
+        out[cls.__name__] = dict(make=cls, kind='biv', X=B, A=bivA)
+    n = 45
+    a = r.normal(2, 1, n)
+    T = pd.DataFrame({'a': a, 'b': 0.6 * a + r.normal(0, 1, n), 'c': r.gamma(2, 1, n) + 1})
+    a2 = r.normal(0, 1, 80)
+    tabA = {'constant-column': pd.DataFrame({'a': r.normal(size=12), 'b': np.full(12, 4.0), 'c': r.uniform(size=12)}),
+            'scaled': T * 10.0, 'bigger': pd.DataFrame({'a': a2, 'b': a2 + r.normal(0, .5, 80), 'c': r.normal(size=80)}),
+            'smaller': T.iloc[:7].copy(), 'other-columns': pd.DataFrame({'x': r.normal(size=20), 'y': r.normal(size=20)}),
+            'nan': pd.DataFrame({'a': [1.0, np.nan, 3.0], 'b': [1.0, 2.0, 3.0], 'c': [0.0, 1.0, 0.5]}), 'empty': pd.DataFrame(),
+            'strings': pd.DataFrame({'a': ['x', 'y', 'z']})}
+    out['GaussianMultivariate'] = dict(make=GaussianMultivariate, kind='multi', X=T,
+                                       A={k: tabA[k] for k in ('constant-column', 'other-columns', 'nan')})
+    out['GaussianMultivariate(GaussianUnivariate)'] = dict(make=lambda **k: GaussianMultivariate(distribution=U.GaussianUnivariate, **k),
+                                                           kind='multi', X=T, A=tabA)
+    out['GaussianMultivariate({b: KDE(sample_size=10)})'] = dict(
+        make=lambda **k: GaussianMultivariate(distribution={'a': U.GaussianUnivariate, 'b': U.GaussianKDE(sample_size=10),
+                                                            'c': U.TruncatedGaussian}, **k),
+        kind='multi', X=T, A={k: tabA[k] for k in ('constant-column', 'scaled', 'nan')})
+    for vt in ('center', 'direct', 'regular'):
+        out[f'VineCopula({vt})'] = dict(make=lambda vt=vt, **k: VineCopula(vt, **k), kind='vine', X=T,
+                                        A={k: tabA[k] for k in ('scaled', 'smaller', 'nan', 'empty', 'strings')})
+    return out
+
+
+def observe(m, kind, X, extra_probe=None):
+    """everything a public query can see: name -> ('ok', value) | ('err', class)"""
+    import pandas as pd
+    obs = {}
+    if kind == 'uni':
+        x = np.asarray(X, dtype=float)
+        x = x[np.isfinite(x)]
+        lo, hi = (float(x.min()), float(x.max())) if len(x) else (0.0, 1.0)
+        P = np.array([lo - 1.0, lo + 0.1 * (hi - lo), 0.5 * (lo + hi), hi - 0.1 * (hi - lo), hi + 1.0] + list(extra_probe or []))
+        Uq = np.array([0.05, 0.3, 0.5, 0.8, 0.97])
+        obs['to_dict'] = _try(lambda: _val(m.to_dict()))
+        obs['cdf'] = _try(lambda: _val(m.cdf(P)))
+        obs['pdf'] = _try(lambda: _val(m.pdf(P)))
+        obs['log_pdf'] = _try(lambda: _val(m.log_probability_density(P)))
+        obs['ppf'] = _try(lambda: _val(m.ppf(Uq)))
+    elif kind == 'biv':
+        Q = np.array([[.3, .4], [.6, .2], [.85, .9]])
+        obs['to_dict'] = _try(lambda: _val(m.to_dict()))
+        obs['cdf'] = _try(lambda: _val(m.cdf(Q)))
+        obs['pdf'] = _try(lambda: _val(m.pdf(Q)))
+        obs['partial_derivative'] = _try(lambda: _val(m.partial_derivative(Q)))
+        obs['ppf'] = _try(lambda: _val(m.ppf(np.array([.3, .7]), np.array([.4, .6]))))
+    elif kind == 'multi':
+        Pt = X.iloc[:4] if isinstance(X, pd.DataFrame) and len(X) else pd.DataFrame({'a': [0.0], 'b': [0.0], 'c': [1.0]})
+        obs['to_dict'] = _try(lambda: _val(m.to_dict()))
+        obs['pdf'] = _try(lambda: _val(m.probability_density(Pt)))
+        obs['log_pdf'] = _try(lambda: _val(m.log_probability_density(Pt)))
+    else:
+        obs['to_dict'] = _try(lambda: _val(m.to_dict()))
+        u = getattr(m, 'u_matrix', None)
+        obs['get_likelihood'] = _try(lambda: _val(m.get_likelihood(np.array([[.3, .5, .6]]) if u is None else u[:1])))
+
+    def smp():
+        st = np.random.get_state()
+        try:
+            m.set_random_state(77)
+            return _val(m.sample(3 if kind in ('vine', 'biv') else 5))
+        finally:
+            np.random.set_state(st)
+    obs['sample(seed=77)'] = _try(smp)
+    return obs
+
+
+def diff_fields(a, b):
+    return [k for k in a if not _same_val(a[k], b[k])]
+
+
+def fit_seeded(m, data, seed=4242):
+    """fit with the global generator in a fixed state (so that a model whose fit legitimately resamples is comparable)"""
+    st = np.random.get_state()
+    np.random.seed(seed)
+    try:
+        return _try(lambda: m.fit(data.copy() if hasattr(data, 'copy') else data))
+    finally:
+        np.random.set_state(st)
+
+
+def classify_refit(spec, refit, fresh, A):
+    """symptom of a refit-vs-fresh difference, from the state of the two REAL objects"""
+    inner_r = getattr(refit, '_instance', None) or refit
+    inner_f = getattr(fresh, '_instance', None) or fresh
+    if spec['kind'] == 'uni':
+        if 'cumulative_distribution' in vars(inner_r) and 'cumulative_distribution' not in vars(inner_f):
+            return 'F5', 'stale-constant-overrides'
+        if hasattr(inner_r, 'min') and hasattr(inner_f, 'min') and (inner_r.min != inner_f.min or inner_r.max != inner_f.max):
+            return 'F6', 'remembered-bounds'
+        if hasattr(inner_r, '_sample_size') and not spec['make']()._sample_size:
+            # constructed without sample_size, yet the refit model resampled / padded to the size of the EARLIER dataset
+            pr, pf = (inner_r._params or {}).get('dataset'), (inner_f._params or {}).get('dataset')
+            if pr is not None and pf is not None and np.size(pr) == np.size(A) and \
+                    (np.size(pr) != np.size(pf) or np.ndim(pr) != np.ndim(pf)):
+                return 'F7', 'cached-sample-size'
+    return 'refit', 'differs'
+
+
+def refit_oracle(name, spec):
+    """[fit A; fit X] vs [fit X] for every A; failing fits must be atomic.  -> list of (key, what, replay)"""
+    bad = []
+    make, kind, X, As = spec['make'], spec['kind'], spec['X'], spec['A']
+    call = f'P.refit_oracle({name!r}, P.target_classes()[{name!r}])'
+    targets = [('X', X)] + ([('Xconst', spec['Xc'])] if 'Xc' in spec else [])
+    for tname, Xt in targets:
+        fresh = make()
+        r0 = fit_seeded(fresh, Xt)
+        probes = [2.5] if kind == 'uni' else None
+        o_fresh = observe(fresh, kind, Xt, probes)
+        for acat, A in As.items():
+            if tname == 'Xconst' and acat not in ('bigger', 'constant', 'scaled'):
+                continue
+            m = make()
+            ra = fit_seeded(m, A, seed=999)
+            rx = fit_seeded(m, Xt)
+            o_refit = observe(m, kind, Xt, probes)
+            d = diff_fields(o_refit, o_fresh)
+            if rx[0] != r0[0] or (rx[0] == 'err' and rx != r0):
+                d = ['fit-outcome'] + d
+            if d:
+                fid, sym = classify_refit(spec, m, fresh, A)
+                key = f'{fid}:{sym}:{name}:after-{acat}' + (':constant-target' if tname == 'Xconst' else '')
+                what = (f'{name}: [fit({acat} data){" (raised " + ra[1] + ")" if ra[0] == "err" else ""}; fit({tname})] is observably different from '
+                        f'[fit({tname})] in {d} ({sym})')
+                bad.append((key, what, {'class': name, 'earlier': acat, 'target': tname, 'differs': d, 'repro': _replay(call, key)}))
+            # atomicity of a failing fit: [fit X; fit A -> raises] must leave the model as it was
+            if tname == 'X' and ra[0] == 'err':
+                m2 = make()
+                fit_seeded(m2, Xt)
+                before = observe(m2, kind, Xt, probes)
+                r2 = fit_seeded(m2, A, seed=999)
+                after = observe(m2, kind, Xt, probes)
+                d2 = diff_fields(after, before)
+                if r2[0] == 'ok':
+                    # the data a fresh model REJECTS is accepted after an earlier fit: the outcome of fit depends on the history
+                    ff = make()
+                    fit_seeded(ff, A, seed=999)
+                    fid, sym = classify_refit(spec, m2, ff, Xt)
+                    key = f'{fid}:{sym}:{name}:{acat}-data-accepted-after-fit'
+                    bad.append((key, f'{name}: fit({acat} data) raises {ra[1]} on a fresh model but is accepted after fit(X) ({sym}); the model then '
+                                f'answers { {k: (after[k][1] if after[k][0] == "err" else "a value") for k in list(after)[:3]} }',
+                                {'class': name, 'data': acat, 'repro': _replay(call, key)}))
+                elif d2:
+                    key = f'F22:fit-failure-not-atomic:{name}:{acat}'
+                    show = {k: (after[k][1] if after[k][0] == 'err' else 'changed value') for k in d2}
+                    bad.append((key, f'{name}: [fit(X); fit({acat} data) -> {r2[1]}] leaves the model changed: {show}',
+                                {'class': name, 'failing': acat, 'differs': d2, 'repro': _replay(call, key)}))
+                # ... and a fresh model on which fit raised must still be unfitted
+                m3 = make()
+                unf = observe(m3, kind, Xt, probes)
+                fit_seeded(m3, A, seed=999)
+                aft = observe(m3, kind, Xt, probes)
+                d3 = diff_fields(aft, unf)
+                if d3:
+                    key = f'F22:fit-failure-not-atomic:{name}:{acat}:fresh'
+                    show = {k: (aft[k][1] if aft[k][0] == 'err' else 'returns a value') for k in d3}
+                    bad.append((key, f'{name}: a fresh model on which fit({acat} data) raised {ra[1]} is no longer in its unfitted state: {show}',
+                                {'class': name, 'failing': acat, 'differs': d3, 'repro': _replay(call, key)}))
+    # fit must not read the global generator (two global states -> the same model) nor advance it
+    Xt = X
+    m1, m2 = make(), make()
+    fit_seeded(m1, Xt, seed=1)
+    fit_seeded(m2, Xt, seed=2)
+    d = diff_fields(observe(m1, kind, Xt), observe(m2, kind, Xt))
+    st = np.random.get_state()
+    np.random.seed(5)
+    g0 = L.rng_key(np.random.get_state())
+    _try(lambda: make().fit(Xt.copy()))
+    adv = L.rng_key(np.random.get_state()) != g0
+    np.random.set_state(st)
+    if d or adv:
+        key = f'F9b:fit-uses-global-generator:{name}'
+        bad.append((key, f'{name}.fit: ' + (f'two states of numpy\'s global generator give observably different models ({d}); ' if d else '')
+                    + ('fit advances the global generator' if adv else ''),
+                    {'class': name, 'differs': d, 'advances': adv, 'repro': _replay(call, key)}))
+    return bad
+
+
+def unfitted_oracle():
+    """every query / sample / to_dict of every unfitted public model raises NotFittedError"""
+    from copulas import univariate as U
+    from copulas.bivariate import Bivariate, Clayton, Frank, Gumbel
+    from copulas.multivariate import GaussianMultivariate, VineCopula
+    import pandas as pd
+    P, Uq, Q = np.array([0.5, 1.5]), np.array([.2, .7]), np.array([[.3, .4], [.6, .2]])
+    T = pd.DataFrame({'a': [0.1, 0.2], 'b': [0.3, 0.4]})
+    uni_calls = {'cumulative_distribution': (P,), 'cdf': (P,), 'probability_density': (P,), 'pdf': (P,), 'log_probability_density': (P,),
+                 'percent_point': (Uq,), 'ppf': (Uq,), 'sample': (3,), 'to_dict': ()}
+    biv_calls = {'cumulative_distribution': (Q,), 'cdf': (Q,), 'probability_density': (Q,), 'pdf': (Q,), 'log_probability_density': (Q,),
+                 'partial_derivative': (Q,), 'partial_derivative_scalar': (.3, .4), 'percent_point': (Uq, Uq), 'ppf': (Uq, Uq),
+                 'sample': (3,), 'to_dict': ()}
+    multi_calls = {'probability_density': (T,), 'pdf': (T,), 'log_probability_density': (T,), 'cumulative_distribution': (T,), 'cdf': (T,),
+                   'sample': (3,), 'to_dict': ()}
+    # VineCopula.to_dict of an unfitted vine returns {'type', 'vine_type', 'fitted': False} by design (it round-trips): not a query
+    vine_calls = {'sample': (3,), 'get_likelihood': (np.array([[.2, .5, .7]]),)}
+    objs = []
+    for cls in (U.GaussianUnivariate, U.UniformUnivariate, U.BetaUnivariate, U.GammaUnivariate, U.StudentTUnivariate, U.LogLaplace,
+                U.TruncatedGaussian, U.GaussianKDE, U.Univariate):
+        objs.append((cls.__name__, cls.__name__, cls, uni_calls))
+        objs.append((cls.__name__ + '(random_state=3)', cls.__name__, lambda cls=cls: cls(random_state=3), uni_calls))
+    objs.append(('GaussianKDE(sample_size=5)', 'GaussianKDE', lambda: U.GaussianKDE(sample_size=5), uni_calls))
+    objs.append(('TruncatedGaussian(0,1)', 'TruncatedGaussian', lambda: U.TruncatedGaussian(0, 1), uni_calls))
+    for cls in (Clayton, Frank, Gumbel):
+        objs.append((cls.__name__, cls.__name__, cls, biv_calls))
+        objs.append((cls.__name__ + '(random_state=3)', cls.__name__, lambda cls=cls: cls(random_state=3), biv_calls))
+        objs.append((f'Bivariate(copula_type={cls.__name__.lower()!r})', cls.__name__,
+                     lambda cls=cls: Bivariate(copula_type=cls.__name__.lower()), biv_calls))
+    objs.append(('GaussianMultivariate', 'GaussianMultivariate', GaussianMultivariate, multi_calls))
+    objs.append(('GaussianMultivariate(random_state=3)', 'GaussianMultivariate', lambda: GaussianMultivariate(random_state=3), multi_calls))
+    for vt in ('center', 'direct', 'regular'):
+        objs.append((f'VineCopula({vt!r})', 'VineCopula', lambda vt=vt: VineCopula(vt), vine_calls))
+    bad, n = [], 0
+    for name, base, mk, calls in objs:
+        for meth, args in calls.items():
+            with warnings.catch_warnings():
+                warnings.simplefilter('ignore')
+                m = mk()
+                g0 = L.rng_key(np.random.get_state())
+                r = _try(lambda: getattr(m, meth)(*args))
+                moved = L.rng_key(np.random.get_state()) != g0
+            n += 1
+            if r != ('err', 'NotFittedError'):
+                got = r[1] if r[0] == 'err' else 'returns'
+                if base in ('Clayton', 'Frank', 'Gumbel') and meth == 'sample' and got == 'TypeError':
+                    key = 'F23:unfitted-bivariate-sample-TypeError'
+                elif base in ('Clayton', 'Frank', 'Gumbel') and meth == 'to_dict' and got == 'returns':
+                    key = 'F25:unfitted-bivariate-to_dict-returns'
+                elif base == 'VineCopula' and got == 'AttributeError':
+                    key = f'F28:unfitted-vine-{meth}-AttributeError'
+                else:
+                    key = f'unfitted:{base}.{meth}:{got}'
+                bad.append((key, f'unfitted {name}.{meth}(...) {"raises " + got if r[0] == "err" else "returns " + str(r[1])[:60]} '
+                            'instead of raising NotFittedError', {'object': name, 'method': meth, 'repro': _replay('P.unfitted_oracle()[0]', key)}))
+            elif moved:
+                key = f'unfitted:{base}.{meth}:consumes-global-generator'
+                bad.append((key, f'unfitted {name}.{meth} advanced the global generator before raising',
+                            {'object': name, 'method': meth, 'repro': _replay('P.unfitted_oracle()[0]', key)}))
+    return bad, n
+
+
+def validation_oracle():
+    """multivariate fit on empty / non-numeric / NaN input raises ValueError and leaves the instance as it was"""
+    import pandas as pd
+    from copulas.multivariate import GaussianMultivariate, VineCopula
+    from copulas.univariate import GaussianUnivariate
+    r = np.random.RandomState(3)
+    good = pd.DataFrame({'a': r.normal(size=30), 'b': r.normal(size=30), 'c': r.gamma(2, 1, 30)})
+    bads = {'empty-frame': pd.DataFrame(), 'empty-frame-with-columns': pd.DataFrame({'a': [], 'b': []}), 'empty-array': np.zeros((0, 3)),
+            'strings-frame': pd.DataFrame({'a': ['x', 'y', 'z'], 'b': ['u', 'v', 'w']}),
+            'mixed-frame': pd.DataFrame({'a': [1.0, 2.0, 3.0], 'b': ['u', 'v', 'w']}),
+            'object-array': np.array([['a', 'b', 'c'], ['d', 'e', 'f']], dtype=object),
+            'bool-frame': pd.DataFrame({'a': [True, False, True], 'b': [False, True, True]}),
+            'nan-frame': pd.DataFrame({'a': [1.0, np.nan, 3.0], 'b': [1.0, 2.0, 3.0], 'c': [2.0, 1.0, 0.0]}),
+            'nan-array': np.array([[1.0, 2.0, 3.0], [np.nan, 1.0, 0.0], [0.5, 0.2, 0.1]]),
+            'none-frame': pd.DataFrame({'a': [1.0, None, 3.0], 'b': [1.0, 2.0, 3.0]}),
+            'all-nan-frame': pd.DataFrame({'a': [np.nan, np.nan], 'b': [np.nan, np.nan]})}
+    makers = {'GaussianMultivariate': GaussianMultivariate,
+              'GaussianMultivariate(GaussianUnivariate)': lambda: GaussianMultivariate(distribution=GaussianUnivariate),
+              'VineCopula(center)': lambda: VineCopula('center'), 'VineCopula(direct)': lambda: VineCopula('direct'),
+              'VineCopula(regular)': lambda: VineCopula('regular')}
+    bad, n = [], 0
+    for name, mk in makers.items():
+        kind = 'vine' if name.startswith('Vine') else 'multi'
+        with warnings.catch_warnings():
+            warnings.simplefilter('ignore')
+            fitted = mk()
+            fitted.fit(good.copy())
+            unf = observe(mk(), kind, good)
+        before = observe(fitted, kind, good)
+        for bname, B in bads.items():
+            n += 1
+            with warnings.catch_warnings():
+                warnings.simplefilter('ignore')
+                fresh = mk()
+            g0 = L.rng_key(np.random.get_state())
+            r1 = _try(lambda: fresh.fit(B.copy()))
+            moved = L.rng_key(np.random.get_state()) != g0
+            problems = []
+            if r1 != ('err', 'ValueError'):
+                problems.append(f'fresh.fit -> {r1[1] if r1[0] == "err" else "accepted"}')
+            if fresh.fitted or diff_fields(observe(fresh, kind, good), unf):
+                problems.append('fresh instance no longer unfitted')
+            if moved:
+                problems.append('global generator advanced')
+            r2 = _try(lambda: fitted.fit(B.copy()))
+            if r2 != ('err', 'ValueError'):
+                problems.append(f'fitted.fit -> {r2[1] if r2[0] == "err" else "accepted"}')
+            d = diff_fields(observe(fitted, kind, good), before)
+            if d:
+                problems.append(f'fitted instance changed in {d}')
+                with warnings.catch_warnings():
+                    warnings.simplefilter('ignore')
+                    fitted = mk()
+                    fitted.fit(good.copy())
+                before = observe(fitted, kind, good)
+            if problems:
+                key = f'validation:{name}:{bname}'
+                bad.append((key, f'{name}.fit({bname}): ' + '; '.join(problems),
+                            {'class': name, 'input': bname, 'repro': _replay('P.validation_oracle()[0]', key)}))
+    return bad, n
+
+
+def _rs_key(m):
+    rs = getattr(m, 'random_state', None)
+    return None if rs is None else L.rng_key(rs.get_state())
+
+
+def get_instance_oracle():
+    """the four prototype forms -> a NEW unfitted object of the same class, configured like the prototype"""
+    import pandas as pd
+    from copulas import univariate as U
+    from copulas.bivariate import Bivariate, Clayton, Frank, Gumbel, CopulaTypes
+    from copulas.multivariate import GaussianMultivariate, VineCopula
+    from copulas.utils import get_instance, get_qualified_name
+    r = np.random.RandomState(8)
+    X = r.gamma(2.0, 1.5, 30) + 0.5
+    Bv = r.uniform(size=(40, 2))
+    Bv[:, 1] = 0.5 * Bv[:, 0] + 0.5 * Bv[:, 1]
+    T = pd.DataFrame({'a': r.normal(size=25), 'b': r.normal(size=25), 'c': r.normal(size=25)})
+    protos = []     # (label, class, ctor kwargs, training data, kind, attribute expectations)
+    for cls in (U.GaussianUnivariate, U.UniformUnivariate, U.BetaUnivariate, U.GammaUnivariate, U.StudentTUnivariate, U.LogLaplace):
+        protos.append((cls.__name__, cls, {}, X, 'uni', {}))
+        protos.append((cls.__name__ + '(random_state=42)', cls, {'random_state': 42}, X, 'uni', {}))
+    protos += [
+        ('TruncatedGaussian', U.TruncatedGaussian, {}, X, 'uni', {'min': None, 'max': None}),
+        ('TruncatedGaussian(minimum=0)', U.TruncatedGaussian, {'minimum': 0.0}, X, 'uni', {'min': 0.0, 'max': None}),
+        ('TruncatedGaussian(0,50,random_state=7)', U.TruncatedGaussian, {'minimum': 0.0, 'maximum': 50.0, 'random_state': 7}, X, 'uni',
+         {'min': 0.0, 'max': 50.0}),
+        ('GaussianKDE', U.GaussianKDE, {}, X, 'uni', {'_sample_size': None, 'bw_method': None}),
+        ('GaussianKDE(sample_size=9,bw_method=0.3)', U.GaussianKDE, {'sample_size': 9, 'bw_method': 0.3}, X, 'uni',
+         {'_sample_size': 9, 'bw_method': 0.3}),
+        ('GaussianKDE(bw_method=silverman,random_state=5)', U.GaussianKDE, {'bw_method': 'silverman', 'random_state': 5}, X, 'uni',
+         {'_sample_size': None, 'bw_method': 'silverman'}),
+        ('Univariate', U.Univariate, {}, X, 'uni', {'selection_sample_size': None}),
+        ('Univariate(parametric,bounded)', U.Univariate, {'parametric': U.ParametricType.PARAMETRIC, 'bounded': U.BoundedType.BOUNDED}, X, 'uni',
+         {'candidates': [U.BetaUnivariate, U.TruncatedGaussian, U.UniformUnivariate]}),
+        ('Univariate(candidates,selection_sample_size=4,random_state=1)', U.Univariate,
+         {'candidates': [U.GaussianUnivariate, U.UniformUnivariate], 'selection_sample_size': 4, 'random_state': 1}, X, 'uni',
+         {'candidates': [U.GaussianUnivariate, U.UniformUnivariate], 'selection_sample_size': 4}),
+        ('Clayton', Clayton, {}, Bv, 'biv', {}), ('Clayton(random_state=3)', Clayton, {'random_state': 3}, Bv, 'biv', {}),
+        ('Frank', Frank, {}, Bv, 'biv', {}), ('Frank(random_state=3)', Frank, {'random_state': 3}, Bv, 'biv', {}),
+        ('Gumbel', Gumbel, {}, Bv, 'biv', {}), ('Gumbel(random_state=3)', Gumbel, {'random_state': 3}, Bv, 'biv', {}),
+        ('GaussianMultivariate', GaussianMultivariate, {}, T, 'multi', {'distribution': U.Univariate}),
+        ('GaussianMultivariate(distribution=GaussianUnivariate,random_state=2)', GaussianMultivariate,
+         {'distribution': U.GaussianUnivariate, 'random_state': 2}, T, 'multi', {'distribution': U.GaussianUnivariate}),
+        ('GaussianMultivariate(distribution=dict)', GaussianMultivariate, {'distribution': {'a': U.GaussianUnivariate, 'b': U.UniformUnivariate}},
+         T, 'multi', {'distribution': {'a': U.GaussianUnivariate, 'b': U.UniformUnivariate}}),
+        ('VineCopula(direct)', VineCopula, {'vine_type': 'direct'}, T, 'vine', {'vine_type': 'direct'}),
+        ('VineCopula(center,random_state=4)', VineCopula, {'vine_type': 'center', 'random_state': 4}, T, 'vine', {'vine_type': 'center'}),
+    ]
+    bad, n = [], 0
+
+    def check(form, new, cls, kind, data, expect, ctor_kw, proto_obj):
+        probs = []
+        if new is None:
+            return ['returned None']
+        if proto_obj is not None and new is proto_obj:
+            probs.append('returned the prototype itself')
+        if type(new) is not cls:
+            return probs + [f'class {type(new).__name__} instead of {cls.__name__}']
+        with warnings.catch_warnings():
+            warnings.simplefilter('ignore')
+            want = cls(**ctor_kw)
+            rs_want, rs_new = _rs_key(want), _rs_key(new)       # before observe() re-seeds the objects
+            dd = diff_fields(observe(new, kind, data), observe(cls(**ctor_kw), kind, data))
+        if dd:
+            probs.append(f'not in the unfitted state: {dd}')
+        if proto_obj is not None:
+            for a in ('candidates', 'distribution', 'weights', '__args__', '__kwargs__'):
+                v, w = getattr(new, a, None), getattr(proto_obj, a, None)
+                if v is not None and v is w and isinstance(v, (list, dict, np.ndarray)) and len(v):
+                    probs.append(f'shares the mutable attribute {a} with the prototype')
+            for a, v in expect.items():
+                if getattr(new, a, '<missing>') != v:
+                    probs.append(f'{a} = {getattr(new, a, "<missing>")!r} instead of {v!r}')
+            if rs_want != rs_new:
+                probs.append('random_state of the prototype\'s constructor call is not reproduced'
+                             + (' (dropped)' if rs_new is None else ''))
+        return probs
+
+    for label, cls, kw, data, kind, expect in protos:
+        forms = []
+        with warnings.catch_warnings():
+            warnings.simplefilter('ignore')
+            if not kw:
+                forms.append(('name', get_qualified_name(cls), None))
+                forms.append(('class', cls, None))
+            inst = cls(**kw)
+            forms.append(('instance', inst, inst))
+            fitted = cls(**kw)
+            fit_seeded(fitted, data)
+            fit_seeded(fitted, data * 3.0 if kind != 'biv' else data[:20])
+            forms.append(('fitted-instance', fitted, fitted))
+        for form, proto, pobj in forms:
+            if form in ('name', 'class') and cls is VineCopula:
+                continue
+            n += 1
+            with warnings.catch_warnings():
+                warnings.simplefilter('ignore')
+                r1 = _try(lambda: get_instance(proto))
+            probs = [f'raised {r1[1]}'] if r1[0] == 'err' else check(form, r1[1], cls, kind, data, expect, kw, pobj)
+            for pr in probs:
+                if 'random_state' in pr and 'dropped' in pr:
+                    key = f'F27:get_instance-drops-random_state:{cls.__name__}'
+                else:
+                    key = f'get_instance:{label}:{form}:{pr.split(":")[0][:50]}'
+                bad.append((key, f'get_instance({form} of {label}): {pr}',
+                            {'prototype': label, 'form': form, 'repro': _replay('P.get_instance_oracle()[0]', key)}))
+    # the Bivariate entry point: every member of CopulaTypes must construct an object
+    for ct in CopulaTypes:
+        n += 1
+        with warnings.catch_warnings():
+            warnings.simplefilter('ignore')
+            r1 = _try(lambda: Bivariate(copula_type=ct.name.lower()))
+        if r1[0] == 'err' or r1[1] is None:
+            key = 'F26:bivariate-independence-constructs-None' if ct.name == 'INDEPENDENCE' and r1 == ('ok', None) \
+                else f'get_instance:Bivariate({ct.name.lower()}):{r1[1] if r1[0] == "err" else "None"}'
+            bad.append((key, f'Bivariate(copula_type={ct.name.lower()!r}) evaluates to {r1[1] if r1[0] == "err" else None} instead of a new copula object',
+                        {'copula_type': ct.name, 'repro': 'from copulas.bivariate import Bivariate\n'
+                         f'b = Bivariate(copula_type={ct.name.lower()!r})\nprint(b)\nraise SystemExit(1 if b is None else 0)\n'}))
+    return bad, n
+
+
+SUBCLASS_SNIPPET = """
+from copulas.bivariate import {cls}
+d = {{'copula_type': '{NAME}', 'theta': 2.0, 'tau': 0.5}}
+try:
+    c = {cls}.from_dict(d)
+    ok = type(c).__name__ == '{cls}' and c.theta == 2.0
+    print('constructed', type(c).__name__)
+except Exception as ex:
+    ok = False
+    print('raised', type(ex).__name__, ex)
+raise SystemExit(0 if ok else 1)
+"""
+
+
+def subclass_from_dict_oracle():
+    """<Subclass>.from_dict in a FRESH interpreter (class-level caches empty)"""
+    from ..core import run_snippet
+    bad = []
+    for cls in ('Clayton', 'Frank', 'Gumbel'):
+        code = SUBCLASS_SNIPPET.format(cls=cls, NAME=cls.upper())
+        rc, out, err = run_snippet(code, timeout=120)
+        if rc != 0:
+            got = out.strip().split('\n')[-1] if out.strip() else err.strip()[-120:]
+            key = f'F24:subclass-from_dict:{cls}' if 'raised AttributeError' in got else f'from_dict:{cls}:{got[:40]}'
+            bad.append((key, f'{cls}.from_dict({{copula_type: {cls.upper()}, theta, tau}}) in a fresh interpreter: {got}', {'class': cls, 'repro': code}))
+    return bad
+
+
+# ---- uninitialised memory ---------------------------------------------------------------------------
+class _PoisonedNumpy:
+    """stands in for the module-level name `np` of tree.py / vine.py: np.empty returns a filled array"""
+
+    def __init__(self, fill):
+        self._fill = fill
+
+    def __getattr__(self, name):
+        if name == 'empty':
+            fill = self._fill
+
+            def empty(shape, *a, **k):
+                out = np.empty(shape, *a, **k)
+                out.fill(fill)
+                return out
+            return empty
+        return getattr(np, name)
+
+
+def vine_under_poison(vine_type, table, fill, truncated):
+    """fit + likelihood + sample of a vine with every np.empty buffer of tree.py / vine.py pre-filled with `fill`"""
+    import copulas.multivariate.tree as T
+    import copulas.multivariate.vine as V
+    from copulas.multivariate import VineCopula
+    saved = (T.np, V.np)
+    T.np = V.np = _PoisonedNumpy(fill)
+    st = np.random.get_state()
+    try:
+        with warnings.catch_warnings():
+            warnings.simplefilter('ignore')
+            v = VineCopula(vine_type)
+            v.fit(table.copy(), truncated=truncated)
+            trees = []
+            for t in v.trees:
+                trees.append([{'L': int(e.L), 'R': int(e.R), 'D': sorted(int(x) for x in e.D), 'name': getattr(e.name, 'name', str(e.name)),
+                               'theta': float(e.theta), 'tau': None if e.tau is None else float(e.tau)} for e in t.edges])
+            lik = _try(lambda: float(v.get_likelihood(v.u_matrix[:1])))
+            v.set_random_state(11)
+            smp = _try(lambda: _val(v.sample(2)))
+        return {'trees': trees, 'likelihood': lik, 'sample': smp}
+    finally:
+        T.np, V.np = saved
+        np.random.set_state(st)
+
+
+def poison_tables(seed, n_tables):
+    import pandas as pd
+    out = []
+    for i in range(n_tables):
+        r = np.random.RandomState(1000 * seed + i)
+        d = 3 + i % 3
+        Z = r.normal(size=(50, d))
+        X = Z @ r.normal(size=(d, d))
+        out.append((f'normal-mix(seed={1000 * seed + i},d={d},n=50)', pd.DataFrame(X, columns=[f'c{j}' for j in range(d)])))
+    return out
+
+
+def poison_oracle(seed, n_tables):
+    """no result depends on uninitialised memory: NaN-filled vs 0.123-filled np.empty must give the same vine"""
+    bad, n = [], 0
+    for label, table in poison_tables(seed, n_tables):
+        d = table.shape[1]
+        for vt in ('center', 'direct', 'regular'):
+            n += 1
+            try:
+                a = vine_under_poison(vt, table, float('nan'), d)
+                b = vine_under_poison(vt, table, 0.123, d)
+            except Exception as ex:
+                bad.append((f'poison:vine-raises:{vt}:{type(ex).__name__}', f'VineCopula({vt}).fit on {label} raised {type(ex).__name__}: {ex}',
+                            {'table': label}))
+                continue
+            struct = lambda t: [(e['L'], e['R'], e['D'], e['name']) for e in t]   # noqa: E731
+            same_structure = True
+            for lvl, (ta, tb) in enumerate(zip(a['trees'], b['trees'])):
+                where = 'third-tree-onwards' if lvl >= 2 else f'tree{lvl + 1}'
+                if struct(ta) != struct(tb):
+                    same_structure = False
+                    bad.append((f'F8:uninitialised-memory:structure:{vt}:{where}',
+                                f'VineCopula({vt}) on {label}: tree {lvl + 1} has edges {struct(ta)} when np.empty is NaN-filled but {struct(tb)} '
+                                'when it is 0.123-filled', {'table': label, 'vine_type': vt, 'tree': lvl + 1}))
+                    break
+                if not all(L.same(x['tau'], y['tau']) for x, y in zip(ta, tb)):
+                    bad.append((f'F8:uninitialised-memory:edge-tau:{vt}:{where}',
+                                f'VineCopula({vt}) on {label}: tree {lvl + 1} stores edge.tau = {[e["tau"] for e in ta]} (NaN fill) vs '
+                                f'{[e["tau"] for e in tb]} (0.123 fill): the value is whatever np.empty returned',
+                                {'table': label, 'vine_type': vt, 'tree': lvl + 1}))
+                if not all(L.same(x['theta'], y['theta']) for x, y in zip(ta, tb)):
+                    bad.append((f'F8:uninitialised-memory:theta:{vt}:{where}', f'VineCopula({vt}) on {label}: thetas of tree {lvl + 1} depend on the fill',
+                                {'table': label, 'vine_type': vt, 'tree': lvl + 1}))
+            if same_structure and not _same_val(a['likelihood'], b['likelihood']):
+                where = 'three-or-more-trees' if d >= 4 else f'{d - 1}-trees'
+                bad.append((f'F8:uninitialised-memory:likelihood:{vt}:{where}',
+                            f'VineCopula({vt}).get_likelihood on {label}: {a["likelihood"]} (NaN fill) vs {b["likelihood"]} (0.123 fill)',
+                            {'table': label, 'vine_type': vt}))
+            if same_structure and not _same_val(a['sample'], b['sample']):
+                bad.append((f'F8:uninitialised-memory:sample:{vt}', f'VineCopula({vt}).sample on {label} depends on the fill although the structure does not',
+                            {'table': label, 'vine_type': vt}))
+    for b in bad:
+        b[2].setdefault('repro', _replay(f'P.poison_oracle({seed}, {n_tables})[0]', b[0]))
+    return bad, n
+
+
+def witness_search(ctx):
+    quick = ctx.tier == 'quick'
+    hits = {}
+
+    def report(items, group):
+        for key, what, replay in items:
+            hits[key] = hits.get(key, 0) + 1
+            ctx.violation(key, what, replay)
+        ctx.extra.setdefault('witness_search', {})[group] = sorted({k for k, _, _ in items})
+    specs = target_classes()
+    allbad = []
+    for name, spec in specs.items():
+        try:
+            bad = refit_oracle(name, spec)
+        except Exception:
+            import traceback
+            ctx.obligation(f'oracle:refit:{name}', False, 'harness', traceback.format_exc()[-1200:])
+            continue
+        ctx.case(('refit', name), {'oracle': 'refit-vs-fresh + failure atomicity + global generator', 'class': name,
+                                   'earlier_data': list(spec['A']), 'violations': [b[0] for b in bad]})
+        allbad += bad
+    report(allbad, 'refit-vs-fresh')
+    bad, n = unfitted_oracle()
+    ctx.case(('unfitted', n), {'oracle': 'unfitted raises NotFittedError', 'calls': n, 'violations': sorted({b[0] for b in bad})})
+    report(bad, 'unfitted')
+    bad, n = validation_oracle()
+    ctx.case(('validation', n), {'oracle': 'multivariate validation', 'cases': n, 'violations': [b[0] for b in bad]})
+    report(bad, 'validation')
+    bad, n = get_instance_oracle()
+    ctx.case(('get_instance', n), {'oracle': 'get_instance prototype forms', 'cases': n, 'violations': sorted({b[0] for b in bad})})
+    report(bad, 'get_instance')
+    report(subclass_from_dict_oracle(), 'subclass-from_dict')
+    bad, n = poison_oracle(ctx.seed, 6 if quick else 30)
+    ctx.case(('poison', n), {'oracle': 'np.empty poisoned with NaN vs 0.123 in tree.py / vine.py', 'vine fits': n,
+                             'violations': sorted({b[0] for b in bad})})
+    report(bad, 'uninitialised-memory')
+    ctx.extra['witness_search_hits'] = hits
+
+
+# =====================================================================================================
 # run
 # =====================================================================================================
+def ensure_tab(ctx):
+    """coq/Model/LifecycleTab.v is a static library file; until it is listed in _CoqProject (then `make` builds it and this
+    is a no-op) compile it here when its .vo is missing or older than its source / its dependencies"""
+    import fcntl
+    import subprocess
+    from ..core import COQ, VERIF
+    src = os.path.join(COQ, 'Model', 'LifecycleTab.v')
+    vo = src + 'o'
+    deps = [src, os.path.join(COQ, 'Model', 'Lifecycle.vo'), os.path.join(COQ, 'Model', 'Vine.vo')]
+    lock = open(os.path.join(VERIF, 'build', '.static.lock'), 'w')
+    fcntl.flock(lock, fcntl.LOCK_EX)
+    try:
+        if os.path.exists(vo) and all(os.path.getmtime(vo) >= os.path.getmtime(d) for d in deps if os.path.exists(d)):
+            return True
+        r = subprocess.run(['timeout', '600', 'coqc', '-q', '-w', '-all', '-Q', COQ, 'Cop', 'Model/LifecycleTab.v'], cwd=COQ,
+                           stdout=subprocess.PIPE, stderr=subprocess.STDOUT, text=True)
+        if r.returncode != 0:
+            ctx.obligation('static:Model/LifecycleTab.v', False, 'proof', r.stdout[-1500:])
+            return False
+        return True
+    finally:
+        fcntl.flock(lock, fcntl.LOCK_UN)
+
+
 def run(ctx):
     quick = ctx.tier == 'quick'
+    if not ensure_tab(ctx):
+        return
     text, pyfacts, problems = gen_facts()
     ctx.write('Gen_c19facts.v', text)
     for p in problems:
@@ -418,6 +1123,14 @@ def run(ctx):
              'that behaviour; the same history is evaluated by vm_compute of Lifecycle.step over the captured oracle table and compared '
              '(numbers within 1e-9 relative).')
     corr(ctx, {'scipy': 62, 'wrapper': 20, 'biv': 18, 'gm': 14} if quick else {'scipy': 620, 'wrapper': 160, 'biv': 150, 'gm': 90})
+    ctx.rule('witness search (always): refit-vs-fresh observational equality (to_dict, cdf/pdf/log-pdf/ppf on probes, sample under seed 77) for '
+             '[fit A; fit X] vs [fit X], A in {constant, scaled, bigger, smaller, NaN, empty, (bivariate) constant column / negative dependence / '
+             'out of range, (tables) other columns / strings}, X non-constant and constant, on 8 families (+ options), Univariate (3 configs), '
+             'Clayton/Frank/Gumbel, GaussianMultivariate (3 configs), VineCopula (3 types); atomicity of failing fits; independence of fit from '
+             'the global generator; NotFittedError on every query of every unfitted class; validation of 11 invalid tables on 5 multivariate '
+             'configurations; get_instance on name/class/instance/fitted-instance prototypes of 32 configurations; <Subclass>.from_dict in a fresh '
+             'interpreter; vines under NaN- vs 0.123-filled np.empty')
+    witness_search(ctx)
     ctx.trusted += ['coq/Model/Lifecycle.v is a hand-written transcription of the fit/query/serialisation paths of the ScipyModel families, '
                     'Univariate, Bivariate, GaussianMultivariate and get_instance (tied by the history correspondence and the AST facts)',
                     'tools/vf/lifecycle.py: recorders at the scipy/numpy boundary, canonicalisation of observations, oracle tables',
